@@ -365,6 +365,9 @@ PLUGS = {
                 with_defaultdicts(gen.scenarios_tagged(seed + 3, sizes(tier, 400, 5000)) + gen.scenarios_shapes(seed + 3, sizes(tier, 500, 6000), op='from_data') +
                                   gen.scenarios_conv(seed + 3, sizes(tier, 800, 10000)), seed),
                 project=proj_verdict_value, oracles=['c09'], disagreement_is_failure=False),
+    'C10': dict(streams=lambda seed, tier: gen.scenarios_history(seed, sizes(tier, 600, 8000), threads=4) + gen.scenarios_lru(seed, sizes(tier, 400, 5000)) +
+                twin_stream(seed, sizes(tier, 150, 2000)),
+                project=proj_full, oracles=['c10'], disagreement_is_failure=True),
     'C11': dict(streams=lambda seed, tier: union_stream(seed, sizes(tier, 1200, 20000)) + twin_stream(seed, sizes(tier, 100, 1500)) +
                 union_stream(seed + 7, sizes(tier, 300, 5000), op='roundtrip'),
                 project=proj_verdict_value, oracles=['c11'], disagreement_is_failure=True),
@@ -387,9 +390,33 @@ PLUGS = {
     'C18': dict(streams=lambda seed, tier: gen.scenarios_handlers(seed, sizes(tier, 2500, 30000)) +
                 [s for s in gen.scenarios_process(seed, sizes(tier, 600, 6000), generic_share=0.0) if 'custom' in json.dumps(s['decls'])],
                 project=proj_full, oracles=[], disagreement_is_failure=True),
+    'C19': dict(streams=lambda seed, tier: gen.scenarios_io(seed, sizes(tier, 2500, 30000)),
+                project=proj_full, oracles=[], disagreement_is_failure=True, post_oracle=lambda sc, iout, mout: io_oracle(sc, iout, mout)),
     'C20': dict(streams=lambda seed, tier: rename_stream(seed, tier), project=proj_full, oracles=[], disagreement_is_failure=True,
                 post_oracle=rename_oracle),
 }
+
+
+def io_oracle(sc, iout, mout):
+    """C19 on the implementation alone: the value read back equals the value written; the caller's stream is
+    still open; a path was opened as UTF-8 and closed"""
+    if not isinstance(iout, dict) or 'x' not in iout or 'x2' not in iout:
+        return None
+    rep = ((mout or {}).get('out') or {}).get('rep')
+    if rep is False:
+        return None
+    x2 = iout['x2']
+    if 'value' not in x2:
+        return f'written value could not be read back: {json.dumps(x2)[:300]}'
+    if corr.sort_dicts(canon(x2['value'])) != corr.sort_dicts(canon(iout['x'])):
+        return f"read back {json.dumps(x2['value'])[:200]} != written {json.dumps(iout['x'])[:200]}"
+    if iout.get('stream_open') is not True:
+        return f"the caller's stream was closed ({iout.get('stream_open')})"
+    if iout.get('path_closed') is False:
+        return 'a file opened from a path was not closed'
+    if iout.get('utf8') is False:
+        return 'a path was not opened as UTF-8'
+    return None
 
 
 # ------------------------------------------------------------------------------------------------
